@@ -40,7 +40,7 @@ fn dispatch(sx: &Sx) -> String {
         "about" => modes::wrap::about(args),
         m => {
             // areas developed independently: each owns its file under modes/ and claims its modes there
-            let areas: [fn(&str, &[Sx]) -> Option<String>; 7] = [
+            let areas: [fn(&str, &[Sx]) -> Option<String>; 17] = [
                 modes::help::dispatch,
                 modes::aot::dispatch,
                 modes::aottext::dispatch,
@@ -48,6 +48,16 @@ fn dispatch(sx: &Sx) -> String {
                 modes::man::dispatch,
                 modes::derive::dispatch,
                 modes::history::dispatch,
+                modes::c01::dispatch,
+                modes::c02::dispatch,
+                modes::c03::dispatch,
+                modes::c05::dispatch,
+                modes::c06::dispatch,
+                modes::c07::dispatch,
+                modes::c08::dispatch,
+                modes::c09::dispatch,
+                modes::c10::dispatch,
+                modes::c11::dispatch,
             ];
             for f in areas {
                 if let Some(r) = f(m, args) {
